@@ -181,6 +181,8 @@ def oracle(ck, tier, deep):
                     ck.count(("S.cached", "dasch", m1, m2, n1, n2, use_dir), suite="S.get_bs_cached")
                     try:
                         quiet(dasch.get_bs_cached, m1, n1, basis_dir=d)
+                        # … and a transform with a pixel size in between: it must not leave its scaling in the cached operator
+                        quiet(getattr(dasch, m1 + "_transform"), rng.normal(size=(2, n1)), basis_dir=d, dr=0.5)
                         if use_dir:
                             dasch.cache_cleanup()
                             quiet(dasch.get_bs_cached, m1, n1, basis_dir=d)
@@ -214,6 +216,34 @@ def oracle(ck, tier, deep):
                                  f"daun.get_bs_cached({n2}, degree={deg}) after a size-{n1} request ({mode}) is not the size-{n2} projected basis "
                                  f"(off by {np.abs(got - want).max() if got.shape == want.shape else 'shape'})")
     daun.cache_cleanup()
+    # rbasex: matrices requested with a mask of valid radii, then without: the unmasked request gets the full operators again
+    for (order, odd) in ((2, False), (3, True)):
+        Rm = 14
+        rbasex.cache_cleanup()
+        ck.count(("S.cached", "rbasex", order, odd), suite="S.get_bs_cached")
+        try:
+            bs = [P.copy() for P in quiet(rbasex._bs_rbasex, Rm, order, odd)]
+            valid = np.ones(Rm + 1, bool)
+            valid[4:8] = False
+            for direction, reg in (("forward", None), ("inverse", ("L2", 1.0)), ("inverse", None)):
+                quiet(rbasex.get_bs_cached, Rm, order, odd, direction, reg, valid)
+            Af = quiet(rbasex.get_bs_cached, Rm, order, odd, "forward")
+            Ai = quiet(rbasex.get_bs_cached, Rm, order, odd, "inverse")
+            for k, (P, a, b) in enumerate(zip(bs, Af, Ai)):
+                lo = 0 if k == 0 else 1
+                if np.abs(np.asarray(a) - P.T).max() > 0:
+                    ck.violation(dict(site="rbasex", clause="get_bs_cached=generator"), dict(Rmax=Rm, order=order, odd=odd, term=k),
+                                 f"rbasex.get_bs_cached(forward) after masked requests differs from the projected basis (term {k}) by "
+                                 f"{np.abs(np.asarray(a) - P.T).max():.3g}")
+                    break
+                e = np.abs((np.asarray(b) @ P.T)[lo:, lo:] - np.eye(Rm + 1)[lo:, lo:]).max()
+                if e > 1e-9:
+                    ck.violation(dict(site="rbasex", clause="get_bs_cached=generator"), dict(Rmax=Rm, order=order, odd=odd, term=k),
+                                 f"rbasex.get_bs_cached(inverse) after masked requests is not the inverse of the projected basis (term {k}, off by {e:.3g})")
+                    break
+        except Exception as e:
+            ck.violation(dict(site="rbasex", clause="exception"), dict(Rmax=Rm, order=order, odd=odd), f"{type(e).__name__}: {e}")
+    rbasex.cache_cleanup()
     ck.sample(dict(suite="S", families=["daun0-3", "basex", "rbasex", "two_point", "three_point", "onion_peeling", "get_bs_cached histories"]))
 
 
